@@ -128,9 +128,13 @@ impl DebugSession {
         }
     }
 
-    fn next_seq(&mut self) -> i64 {
-        self.server_seq
-            .fetch_add(1, std::sync::atomic::Ordering::Relaxed)
+    /// Take the next sequence number for a message that is about to be written.
+    ///
+    /// Sequence numbers must reach the client in the order they are taken, whichever thread
+    /// writes (the session or an output forwarder), so the number may only be taken while the
+    /// transport is locked - the locked transport is the evidence.
+    fn next_seq(server_seq: &AtomicI64, _locked_io: &mut dyn DapTransport) -> i64 {
+        server_seq.fetch_add(1, std::sync::atomic::Ordering::Relaxed)
     }
 
     fn next_progress_id(&mut self) -> String {
@@ -455,8 +459,9 @@ impl DebugSession {
         message: Option<String>,
         body: Option<Value>,
     ) -> anyhow::Result<()> {
+        let mut lock = self.io.lock().unwrap();
         let rsp = DapResponse {
-            seq: self.next_seq(),
+            seq: Self::next_seq(&self.server_seq, &mut *lock),
             r#type: "response",
             request_seq: req.seq,
             success,
@@ -468,7 +473,6 @@ impl DebugSession {
         #[cfg(feature = "verif")]
         crate::dap::verif::sched_point("session.response", value["seq"].as_i64().unwrap_or(0));
 
-        let mut lock = self.io.lock().unwrap();
         lock.write_message(&value)
     }
 
@@ -482,10 +486,10 @@ impl DebugSession {
     }
 
     fn send_event_raw(&mut self, name: &'static str, body: Option<Value>) -> anyhow::Result<()> {
-        let seq = self.next_seq();
+        let mut lock = self.io.lock().unwrap();
+        let seq = Self::next_seq(&self.server_seq, &mut *lock);
         #[cfg(feature = "verif")]
         crate::dap::verif::sched_point("session.event", seq);
-        let mut lock = self.io.lock().unwrap();
 
         protocol::send_event(seq, &mut *lock, name, body)
     }
@@ -547,12 +551,12 @@ impl DebugSession {
                 match reader.read_line(&mut buf) {
                     Ok(0) => break,
                     Ok(_) => {
-                        let s = seq.fetch_add(1, std::sync::atomic::Ordering::Relaxed);
-                        #[cfg(feature = "verif")]
-                        crate::dap::verif::sched_point("forwarder.stdout", s);
-
                         {
                             let mut lock = io.lock().unwrap();
+                            let s = Self::next_seq(&seq, &mut *lock);
+                            #[cfg(feature = "verif")]
+                            crate::dap::verif::sched_point("forwarder.stdout", s);
+
                             // TODO log it somehow
                             _ = protocol::send_event(
                                 s,
@@ -578,12 +582,12 @@ impl DebugSession {
                 match reader.read_line(&mut buf) {
                     Ok(0) => break,
                     Ok(_) => {
-                        let s = seq.fetch_add(1, std::sync::atomic::Ordering::Relaxed);
-                        #[cfg(feature = "verif")]
-                        crate::dap::verif::sched_point("forwarder.stderr", s);
-
                         {
                             let mut lock = io.lock().unwrap();
+                            let s = Self::next_seq(&seq, &mut *lock);
+                            #[cfg(feature = "verif")]
+                            crate::dap::verif::sched_point("forwarder.stderr", s);
+
                             // TODO log it somehow
                             _ = protocol::send_event(
                                 s,
